@@ -45,5 +45,7 @@ G_SetDuringClear    == ~(\E c \in Clients : pc[c] \in {"clr_store", "clr_fin"} /
 G_ExactFitAfterShrink == ~(lowered /\ apc = "new_set" /\ used = maxCost /\ areg.victims = <<>>)
 G_ReAddAfterZeroSweep == ~(areg.item.h \in swept0 /\ areg.item.cost > 0 /\
                             ((apc = "new_set" /\ areg.victims # <<>>) \/ apc = "new_rej"))
+G_ClearAfterGetsOnly == ~(\E c \in Clients : pc[c] = "clr_stop" /\ (\A h \in Hashes : store[h] = NULL /\ pol[h] = NoCost)
+                           /\ buf = <<>> /\ \E h \in Hashes : door[h])
 G_RaiseCost         == ~(raised /\ used > maxCost)
 =============================================================================
